@@ -267,6 +267,14 @@ func (w *inotify) register(path string, flags uint32, recurse bool) error {
 		}
 
 		if e, ok := w.watches.wd[uint32(wd)]; ok {
+			if existing != nil && existing != e {
+				// The path now refers to a file that is already watched
+				// under another name; that watch stays as it is. Drop the
+				// stale entry for this path, and the kernel watch on the
+				// file it used to refer to.
+				w.watches.remove(existing)
+				unix.InotifyRmWatch(w.fd, existing.wd)
+			}
 			return e, nil
 		}
 
